@@ -1,1 +1,135 @@
-let () = ()
+(* C09 driver.  One case per line, as printed by harness/src/bin/c09.rs with
+   the implementation's answer cut off:
+     RULES r;r;… # STATES id:excl,… # N n # BD b… # MT row;row;…      -> `LEX items # GHOST steps=… ops=… depth=… stop=…`
+     RULES r;r;… # MAP hexname:id,…                                    -> `OUT toks ; missing_from_lexer ; missing_from_parser`
+   Rule names are interned (first occurrence order over rules, then map keys). *)
+let sections (line : string) : (string * string) list =
+  List.map (fun s ->
+      let s = String.trim s in
+      match String.index_opt s ' ' with
+      | None -> (s, "")
+      | Some i -> (String.sub s 0 i, String.trim (String.sub s (i + 1) (String.length s - i - 1))))
+    (String.split_on_char '#' line)
+
+let names : (string, int) Hashtbl.t = Hashtbl.create 16
+let rev_names : (int, string) Hashtbl.t = Hashtbl.create 16
+let intern (h : string) : int =
+  match Hashtbl.find_opt names h with
+  | Some i -> i
+  | None ->
+      let i = Hashtbl.length names in
+      Hashtbl.add names h i; Hashtbl.add rev_names i h; i
+
+let parse_target (s : string) =
+  let id () = nat_of_int (int_of_string (String.sub s 1 (String.length s - 1))) in
+  match s.[0] with
+  | 'N' -> None
+  | 'P' -> Some (id (), Push)
+  | 'O' -> Some (id (), Pop)
+  | 'R' -> Some (id (), ReplaceStack)
+  | _ -> failwith "target"
+
+let parse_rules (s : string) : rule list =
+  if s = "-" then [] else
+  List.map (fun r ->
+      match String.split_on_char ',' r with
+      | [name; tok; ss; tgt] ->
+          { r_name = (if name = "-" then None else Some (nat_of_int (intern name)));
+            r_tok = (if tok = "-" then None else Some (nat_of_int (int_of_string tok)));
+            r_states = (if ss = "-" then [] else
+                          List.map (fun x -> nat_of_int (int_of_string x)) (String.split_on_char '.' ss));
+            r_target = parse_target tgt }
+      | _ -> failwith "rule")
+    (String.split_on_char ';' s)
+
+let parse_states (s : string) : sstate list =
+  if s = "-" then [] else
+  List.map (fun x ->
+      match String.split_on_char ':' x with
+      | [id; ex] -> { ss_id = nat_of_int (int_of_string id); ss_excl = (ex = "1") }
+      | _ -> failwith "state")
+    (String.split_on_char ',' s)
+
+let parse_table (s : string) : (nat * nat) list list =
+  if s = "-" then [] else
+  List.map (fun row ->
+      if row = "-" then [] else
+      List.map (fun c ->
+          match String.split_on_char ':' c with
+          | [p; l] -> (nat_of_int (int_of_string p), nat_of_int (int_of_string l))
+          | _ -> failwith "cell")
+        (split_ws row))
+    (String.split_on_char ';' s)
+
+let show_item = function
+  | Lexeme (t, s, l) -> Printf.sprintf "L %d %d %d" (int_of_nat t) (int_of_nat s) (int_of_nat l)
+  | LexErr (p, None) -> Printf.sprintf "E %d -" (int_of_nat p)
+  | LexErr (p, Some st) -> Printf.sprintf "E %d %d" (int_of_nat p) (int_of_nat st)
+
+let show_stop = function
+  | StopEnd _ -> "end" | StopNoMatch _ -> "nomatch" | StopNoTokId _ -> "notokid"
+  | StopNoTarget _ -> "notarget" | StopPopEmpty _ -> "popempty"
+  | StopEmptyStack _ -> "emptystack" | StopNoInitial -> "noinitial"
+
+let depth (st : stack) = List.fold_left (fun a (c, _) -> a + int_of_nat c) 0 st
+
+let lex_case secs =
+  let get k = try List.assoc k secs with Not_found -> failwith ("missing " ^ k) in
+  let rules = parse_rules (get "RULES") in
+  let sts = parse_states (get "STATES") in
+  let n = nat_of_int (int_of_string (get "N")) in
+  let bds = List.map nat_of_int (ints_of (get "BD")) in
+  let tbl = parse_table (get "MT") in
+  match run_lex rules sts tbl bds n with
+  | Panic -> "LEX PANIC"
+  | OutOfFuel -> "LEX FUEL"
+  | Done r ->
+      let items = List.map show_item r.items in
+      let stacks = List.map (fun s -> s.st_stack) r.steps in
+      let rec changes = function
+        | a :: (b :: _ as tl) -> (if a <> b then 1 else 0) + changes tl
+        | _ -> 0 in
+      let ops = List.length (List.filter (fun s ->
+                    match nth_error rules s.st_rule with
+                    | Some rl -> rl.r_target <> None
+                    | None -> false) r.steps) in
+      Printf.sprintf "LEX %s # GHOST steps=%d ops=%d changes=%d depth=%d stop=%s"
+        (if items = [] then "-" else String.concat "," items)
+        (List.length r.steps) ops (changes stacks)
+        (List.fold_left (fun a st -> max a (depth st)) 0 stacks) (show_stop r.stopped)
+
+let show_set = function
+  | None -> "NONE"
+  | Some l ->
+      let l = List.sort compare (List.map (fun k -> Hashtbl.find rev_names (int_of_nat k)) l) in
+      (* a HashSet: duplicates collapse *)
+      let l = List.sort_uniq compare l in
+      if l = [] then "EMPTY" else String.concat "," l
+
+let ids_case secs =
+  let get k = try List.assoc k secs with Not_found -> failwith ("missing " ^ k) in
+  let rules = parse_rules (get "RULES") in
+  let mp = let s = get "MAP" in
+    if s = "-" then [] else
+    List.map (fun kv ->
+        match String.split_on_char ':' kv with
+        | [k; v] -> (nat_of_int (intern k), nat_of_int (int_of_string v))
+        | _ -> failwith "map")
+      (String.split_on_char ',' s) in
+  match run_ids mp rules with
+  | Panic -> "OUT PANIC"
+  | OutOfFuel -> "OUT FUEL"
+  | Done ((rs, mfl), mfp) ->
+      let toks = List.map (fun r -> match r.r_tok with Some t -> string_of_int (int_of_nat t) | None -> "-") rs in
+      Printf.sprintf "OUT %s ; %s ; %s" (if toks = [] then "-" else String.concat " " toks)
+        (show_set mfl) (show_set mfp)
+
+let () =
+  iter_lines (fun line ->
+    Hashtbl.reset names; Hashtbl.reset rev_names;
+    try
+      let secs = sections line in
+      if List.mem_assoc "MAP" secs then ids_case secs
+      else if List.mem_assoc "MT" secs then lex_case secs
+      else "SKIP"
+    with Failure m -> "BADCASE " ^ m)
